@@ -74,9 +74,12 @@ PROPS = {
         "trust": [], "assumptions": ["acyclic is_a graphs"],
     },
     "C03": {
-        "subs": [sub("C03", "run_C03", "spec_C03", W_IMPORTS + ["Run.C03"], 400, 4000)],
-        "run_modules": ["C03"],
-        "rule": "two Builder worlds at the u16 limit first (one kind brought to exactly 65 535 records: accepted; to 65 536: "
+        "subs": [sub("C03", "run_C03", "spec_C03", W_IMPORTS + ["Run.C03"], 400, 4000),
+                 sub("C03f", "run_C03f", "spec_C03f", W_IMPORTS + ["Run.C03", "Run.C03f"], 4, 20)],
+        "run_modules": ["C03", "C03f"],
+        "rule": "sub-check C03f: InformationContent::set_gene / set_omim_disease / set_orpha_disease called directly on 200 (thorough 400) "
+                "(total, current) pairs per case — totals up to and beyond 65 535 with counts equal to, 1-3 below and above them, zeros; "
+                "main stream: two Builder worlds at the u16 limit first (one kind brought to exactly 65 535 records: accepted; to 65 536: "
                 "calculate_information_content must return Err; thorough adds one more of each); then "
                 "as C02 with up to 8 records per kind, kinds with zero records, terms linked to all records; IC compared bit-exactly "
                 "(Flocq binary32 division and multiplication, runtime logf supplied as a table on exactly the quotients that occur)",
